@@ -882,7 +882,9 @@ def expected_exception(world, op):
         mp = dict(op[1])
         bad = len(mp) != len(set(mp.values())) or not (atoms.keys() - mp.keys()).isdisjoint(mp.values())
         return 'ValueError' if bad else None
-    if k in ('union', 'copy', 'enter', 'sub') and (in_transaction(m) or (k == 'union' and in_transaction(world.others[0]))):
+    if k == 'enter' and in_transaction(m):
+        return 'OtherError'      # RuntimeError('nested transactions are not supported')
+    if k in ('union', 'copy', 'sub') and (in_transaction(m) or (k == 'union' and in_transaction(world.others[0]))):
         return '*'       # objects made from the intermediate state of an open transaction: outside the contract
     if k == 'union':
         return 'ValueError' if not op[1] and atoms.keys() & world.others[0]._atoms.keys() else None
@@ -1105,8 +1107,11 @@ def classify(cur, other, ops, hook_findings, final):
         if clean(attempt(cur, other, ops, pre=_flush_reset)):
             last_enter = max([j for j, o in enumerate(ops) if o[0] == 'enter'], default=0)
             block = ops[last_enter:]
-            if any(o[0] in ('set_charge', 'set_radical') for o in block) and any(o[0] == 'remap' or (o[0] == 'union' and not o[2]) for o in block):
-                return 'txn-setter-renumbered-untracked'      # known: __exit__ looks setter edits up by atom number in the backup
+            setter = any(o[0] in ('set_charge', 'set_radical') for o in block)
+            if setter and any(o[0] == 'union' and not o[2] for o in block) and any(o[0] == 'delete_atom' for o in block):
+                return 'txn-union-number-reuse-untracked'     # known: an atom merged in place under the number of a deleted atom
+            if setter and any(o[0] == 'remap' or (o[0] == 'union' and not o[2]) for o in block):
+                return 'txn-setter-renumbered-untracked'      # fixed by 33c6db4
             return 'txn-setter-untracked'
         return None
     if k == 'add_bond' and op[3] == 8 and kinds <= {'bond-labels'}:
@@ -1253,8 +1258,9 @@ def search_stereo_and_reactions(ck):
     blocks += [(('enter',), ('enter',), ('add_atom', 9, 0, False, None), ('exit_ok',), ('exit_exn',)),
                (('enter',), ('enter',), ('add_atom', 9, 0, False, None), ('exit_exn',), ('add_atom', 7, 0, False, None), ('exit_exn',)),
                (('enter',), ('enter',), ('exit_ok',), ('exit_ok',)), (('enter',), ('add_atom', 9, 0, False, None), ('enter',), ('exit_exn',))]
-    for ops in blocks:
-        cur, other = 'CCO', 'CN@10'
+    blocks = [('CCO', 'CN@10', ops) for ops in blocks]
+    blocks.append(('CCO', '[NH4+]@2', (('enter',), ('delete_atom', 3), ('union', False, False), ('set_charge', 3, 0), ('add_atom', 6, 0, False, None), ('exit_ok',))))
+    for cur, other, ops in blocks:
         w = fresh_world(cur, other)
         hook = SearchHook()
         run_ops(w, ops, hook)
